@@ -28,7 +28,14 @@ def op_attach(st, o):
     tol = min(mm.cell) / 1000
     if not all(mm.sub_ok(s, tol) for _, s in model):
         return "skipped"  # geometry changed since generation: no longer an aligned box
-    res = sut(setattr, h.obj, "subregions", _regions(st.df, mm, subs))
+    regs = _regions(st.df, mm, subs)
+    if o.get("share") and len(subs) >= 2:
+        # one Region object under two names (or the first box twice): the mesh holds its own, separate copies
+        names = [n for n, _, _ in subs]
+        regs[names[1]] = regs[names[0]]
+        model[1] = (names[1], model[0][1])
+        st.stats.probe("one_region_object_twice")
+    res = sut(setattr, h.obj, "subregions", regs)
     expect_ok(res, f"mesh.subregions = {{{', '.join(n for n, _, _ in subs)}}} (aligned boxes)", "H")
     h.box.v = mm.with_subs(model)
     if st.extra.pop("just_rejected", None) == o["on"]:
@@ -147,6 +154,13 @@ def op_sel(st, o):
         i1 = i0
         q = Fr(o.get("off", 0), 4)
         x = float(mm.region.pmin[d] + (i0 + Fr(1, 2) + q) * mm.cell[d])
+        if o.get("zero"):
+            # the coordinate 0 (0, 0.0 or -0.0) where it lies inside the region, at a margin from the cell faces
+            j = mm.index_of([Fr(0) if k == d else mm.region.center[k] for k in range(nd)])
+            if j is not None and abs(mm.centre_of(j)[d]) <= mm.cell[d] * Fr(3, 8):
+                i0 = i1 = j[d]
+                x = {"int": 0, "neg": -0.0}.get(o["zero"], 0.0)
+                st.stats.probe("selection_at_zero")
         res = sut(h.obj.sel, **{dim: x})
     else:
         i1 = i0 + o["w"] % (mm.n[d] - i0)
